@@ -78,10 +78,15 @@ ExportUndef ==
   prog # <<>> =>
     \A i \in DOMAIN Combos :
        LET rec == Record(Combos[i][1], Combos[i][2])
-           tch == Expect(Combos[i][1], [Combos[i][2] EXCEPT !.undef = "touch"]) IN
+           tch == Expect(Combos[i][1], [Combos[i][2] EXCEPT !.undef = "touch"])
+           \* the policies themselves on the reference: an undefined that is bound to a name, passed on or
+           \* stored is not used; one that is printed, tested, compared, iterated, indexed or filtered is
+           str == Expect(Combos[i][1], [Combos[i][2] EXCEPT !.undef = "strict"])
+           fal == Expect(Combos[i][1], [Combos[i][2] EXCEPT !.undef = "falsy"]) IN
        IF rec.expect.err = "UNSPEC" \/ tch.err = "UNSPEC" THEN TRUE
        ELSE Emit(ToJson([rec EXCEPT !.expect = [ok |-> rec.expect.ok, err |-> rec.expect.err, out |-> rec.expect.out,
-                                                  touched |-> (tch.err = "UndefinedError")]]) \o "\n")
+                                                  touched |-> (tch.err = "UndefinedError"),
+                                                  strict |-> str.err, falsy |-> fal.err]]) \o "\n")
 
 \* C11: the names a render looks up in the global namespace, read off the reference semantics:
 \* a render that touches no undefined with data d, and does once g alone is taken away, looked g up
